@@ -23,8 +23,10 @@ EvMatches(e, o) ==
                              \* printed once with the file and line where it happened
                              \* (when the check stands outside the test's file, or before the test's line, the test's own
                              \*  location line comes first: o.first)
-                             /\ (e.kind = "check" => /\ (o.infile = 1) = e.infile /\ o.line = e.line /\ o.nloc = e.nloc
-                                                     /\ (e.nloc = 2 => o.first = 1))
+                             \* (e.nloc, the number of location lines the pinned code prints, is a diagnostic: the statement fixes the
+                             \*  location printed for the failure, not whether the test's own location line precedes it)
+                             /\ (e.kind = "check" => /\ (o.infile = 1) = e.infile /\ o.line = e.line /\ o.nloc \in {1, 2}
+                                                     /\ (o.nloc = 2 => o.first = 1))
                              /\ (e.kind \in {"exception", "plugin"} => o.infile = 1 /\ o.line = 1000 * e.t /\ o.nloc = 1)
          [] e.op = "testEnd" -> o.t = e.t /\ o.jmp = e.jmp /\ o.cnt = e.cnt /\ PtrOK(e.ptr, o.ptr)
          [] e.op = "testsEnded" -> o.txt = e.s /\ o.res = e.s
